@@ -48,6 +48,7 @@ var targetPkgs = []string{
 	"internal/forwarder",
 	"internal/forwarder/perio",
 	"internal/forwarder/buffnetlink",
+	"pkg/factory",
 }
 
 var knobNames = map[string]bool{
